@@ -10,6 +10,7 @@ from pmon.gen import trees as T, models as M, strings as S
 from pmon.checks import _trees
 
 ID = 'C04'
+PYTEST_LAW = 'C04'     # also run /repo's own tests with this property's law attached
 RULE = ('parseable trees: the bounded-exhaustive small trees of C02 *without* the well-formedness '
         'filter (so duplicate triples and inverted self-loops are included), seeded random '
         'well-formed trees, and mangled ones (duplicate definitions, duplicate branches, -of-of, '
